@@ -1,5 +1,5 @@
 (* C08Proofs.v — lemmas behind props/C08.v *)
-From SV Require Import Base Json MD5 Canon FS Ws WsLemmas Cache CacheLemmas CorrC01 CorrC08.
+From SV Require Import Base Json MD5 Canon FS Ws WsLemmas Cache CacheLemmas CorrC01 CorrC08 C01Proofs.
 
 Section P.
   Variable frepr : fl -> str.
@@ -27,6 +27,9 @@ Section P.
   Notation open_all := (open_all frepr loads_b).
   Notation add_from_ws := (add_from_ws frepr loads_s).
   Notation resolve_id := (resolve_id).
+  Notation open_pre := (open_pre frepr loads_b).
+  Notation open_pres := (open_pres frepr loads_b).
+  Notation handle_sp := (handle_sp frepr loads_b).
 
   (* ================================================================ A. soundness of the caches *)
   Definition sound (c : cache) : Prop := forall i v, In (i, v) c -> cid v = i.
@@ -432,6 +435,90 @@ Section P.
     rewrite E2. simpl. repeat split; auto. f_equal. apply filter_ref; auto.
   Qed.
 
+  (* ---------------------------------------------------------------- opening by ABBREVIATED id *)
+  (* an abbreviated id never hits the cache: every key of a sound cache is a 32 character hash *)
+  Lemma short_miss : forall c p, sound c -> (length p < 32)%nat -> alookup p c = None.
+  Proof.
+    intros c p Hc Hp. destruct (alookup p c) as [x|] eqn:E; auto.
+    apply alookup_In in E. apply Hc in E. destruct (calc_id_shape frepr x) as [Hl _].
+    unfold Cache.cid in E. rewrite E in Hl. lia.
+  Qed.
+
+  (* THE LEMMA: in a session whose caches are sound, open_job(id=p) for an abbreviated p is resolved against
+     the directory listing alone — the cache can only supply the state point of the id found there *)
+  Theorem prefix_resolution_from_listing : forall f s p,
+    Inv f s -> (length p < 32)%nat ->
+    open_id f s p =
+      (ensure_read f s,
+       match filter (str_prefix p) (listing f) with
+       | [m] => Ok (m, alookup m (s_cache (ensure_read f s)))
+       | [] => Err EKeyError
+       | _ => Err ELookupError
+       end).
+  Proof.
+    intros f s p H Hp. unfold Cache.open_id.
+    rewrite (short_miss _ p (ensure_read_sound f s H) Hp).
+    unfold Cache.resolve_id. assert (E : Nat.ltb (length p) 32 = true) by (apply Nat.ltb_lt; exact Hp).
+    rewrite E. destruct (filter (str_prefix p) (listing f)) as [|m [|m' r]]; reflexivity.
+  Qed.
+
+  (* statepoint() of the handle of a listed job *)
+  Lemma handle_ref : forall f s m,
+    Agr f s -> sound (s_cache s) -> ws_intact f -> In m (listing f) ->
+    exists s' v w, handle_sp f s (m, alookup m (s_cache s)) = (s', Ok v) /\ wsv f m = Some w /\ norm v = norm w /\
+                   agrees f (s_cache s') /\ sound (s_cache s').
+  Proof.
+    intros f s m HA Hs Hw Hm.
+    destruct (ws_intact_wsv f m Hw Hm) as [c [w [G [Ls [Lb [Hid [Ho Hv]]]]]]].
+    unfold Cache.handle_sp. simpl. destruct (alookup m (s_cache s)) as [sp|] eqn:El.
+    - assert (Hn : norm sp = norm w) by (apply alookup_In in El; eapply (proj1 HA); eauto).
+      rewrite (norm_objb _ _ Hn), Ho. exists s, sp, w. repeat split; auto. apply (proj1 HA).
+    - assert (El2 : sp_load_view f m = Ok (w, w)).
+      { unfold Cache.sp_load_view, Cache.sp_load. rewrite G, Lb. unfold Cache.cid. fold (cid w).
+        destruct w; try discriminate Ho. rewrite Hid, str_eqb_refl. reflexivity. }
+      rewrite El2. exists (reg s m w), w, w. split; [reflexivity|]. split; [exact Hv|]. split; [reflexivity|].
+      split; [simpl; apply agrees_aset; [apply (proj1 HA)|exact Hv]|apply sound_reg; auto].
+  Qed.
+
+  (* what open_job(id=p).statepoint() must be, computed from the listing and the workspace files alone *)
+  Definition pre_spec (f : fs) (p : str) (r : result (str * result json)) : Prop :=
+    match filter (str_prefix p) (listing f) with
+    | [m] => exists v w, r = Ok (m, Ok v) /\ wsv f m = Some w /\ norm v = norm w
+    | [] => r = Err EKeyError
+    | _ => r = Err ELookupError
+    end.
+
+  Lemma open_pre_ref : forall f s p,
+    Inv f s -> Agr f s -> ws_intact f -> (length p < 32)%nat ->
+    exists s' r, open_pre f s p = (s', r) /\ pre_spec f p r /\ Inv f s' /\ Agr f s'.
+  Proof.
+    intros f s p HI HA Hw Hp. unfold Cache.open_pre. rewrite (prefix_resolution_from_listing f s p HI Hp).
+    pose proof (ensure_read_sound f s HI) as Hs1. pose proof (ensure_read_agrees f s HA) as Ha1.
+    assert (HA1 : Agr f (ensure_read f s)) by (split; [exact Ha1|exact (proj2 HA)]).
+    assert (HI1 : Inv f (ensure_read f s)) by (split; [exact Hs1|exact (proj2 HI)]).
+    unfold pre_spec. destruct (filter (str_prefix p) (listing f)) as [|m [|m' r]] eqn:Ef.
+    - exists (ensure_read f s), (Err EKeyError). auto.
+    - assert (Hm : In m (listing f)).
+      { assert (Hin : In m (filter (str_prefix p) (listing f))) by (rewrite Ef; left; reflexivity).
+        apply filter_In in Hin. apply Hin. }
+      destruct (handle_ref f (ensure_read f s) m HA1 Hs1 Hw Hm) as [s' [v [w [Eh [Hv [Hn [Ha' Hs']]]]]]].
+      rewrite Eh. exists s', (Ok (m, Ok v)). split; [reflexivity|]. split; [exists v, w; auto|].
+      split; [split; [exact Hs'|exact (proj2 HI)]|split; [exact Ha'|exact (proj2 HA)]].
+    - exists (ensure_read f s), (Err ELookupError). auto.
+  Qed.
+
+  Lemma open_pres_ref : forall f ps s,
+    Inv f s -> Agr f s -> ws_intact f -> (forall p, In p ps -> (length p < 32)%nat) ->
+    exists s' l, open_pres f s ps = (s', l) /\ Inv f s' /\
+      Forall2 (fun x p => fst x = p /\ pre_spec f p (snd x)) l ps.
+  Proof.
+    induction ps as [|p r IH]; intros s HI HA Hw Hps; simpl.
+    - exists s, []. split; [reflexivity|]. split; [exact HI|constructor].
+    - destruct (open_pre_ref f s p HI HA Hw (Hps p (or_introl eq_refl))) as [s1 [x [E [Hx [HI1 HA1]]]]].
+      rewrite E. destruct (IH s1 HI1 HA1 Hw (fun q Hq => Hps q (or_intror Hq))) as [s2 [l [E2 [HI2 F2]]]].
+      rewrite E2. exists s2, ((p, x) :: l). split; [reflexivity|]. split; [exact HI2|]. constructor; auto.
+  Qed.
+
   (* two observations are the same up to the key order of the state points shown *)
   Definition res_equiv (a b : result json) : Prop :=
     match a, b with
@@ -701,6 +788,93 @@ Section P.
     eapply open_all_sound; [split; [exact H1|exact (proj2 H)]|exact Eo].
   Qed.
 
+  Lemma open_pre_sound : forall f s p s' r, Inv f s -> open_pre f s p = (s', r) -> sound (s_cache s').
+  Proof.
+    intros f s p s' r H E. unfold Cache.open_pre, Cache.open_id in E.
+    pose proof (ensure_read_sound f s H) as H1.
+    assert (HS : forall h s2 x, handle_sp f (ensure_read f s) h = (s2, x) -> sound (s_cache s2)).
+    { intros [m c] s2 x Eh. unfold Cache.handle_sp in Eh. simpl in Eh. destruct c as [sp|]; [inversion Eh; subst; exact H1|].
+      destruct (sp_load_view f m) as [[d v]|] eqn:El; inversion Eh; subst; [|exact H1].
+      apply sound_reg; auto. eapply sp_load_view_valid; eauto. }
+    destruct (alookup p (s_cache (ensure_read f s))) as [sp|].
+    - destruct (handle_sp f (ensure_read f s) (p, Some sp)) as [s2 x] eqn:Eh. inversion E; subst. eapply HS; eauto.
+    - destruct (resolve_id f p) as [m|e]; [|inversion E; subst; exact H1].
+      destruct (handle_sp f (ensure_read f s) (m, alookup m (s_cache (ensure_read f s)))) as [s2 x] eqn:Eh.
+      inversion E; subst. eapply HS; eauto.
+  Qed.
+
+  Lemma open_pres_sound : forall f ps s s' l, Inv f s -> open_pres f s ps = (s', l) -> sound (s_cache s').
+  Proof.
+    induction ps as [|p r IH]; simpl; intros s s' l H E.
+    - inversion E; subst. exact (proj1 H).
+    - destruct (open_pre f s p) as [s1 x] eqn:E1.
+      pose proof (open_pre_sound _ _ _ _ _ H E1) as H1.
+      destruct (open_pres f s1 r) as [s2 l2] eqn:E2. inversion E; subst.
+      eapply IH; [split; [exact H1|exact (proj2 H)]|exact E2].
+  Qed.
+
+  (* ---- transparency of opening by abbreviated id *)
+  Definition pre_equiv (a b : result (str * result json)) : Prop :=
+    match a, b with
+    | Ok (m, x), Ok (m', y) => m = m' /\ res_equiv x y
+    | Err e, Err e' => e = e'
+    | _, _ => False
+    end.
+
+  Lemma observe_Agr : forall f s ev, Agr f s -> ws_intact f -> Agr f (fst (observe f s ev)).
+  Proof.
+    intros f s ev HA Hw. unfold Cache.observe, Cache.find_ids.
+    destruct (index_sps_ref f (listing f) s HA Hw (fun i H => H)) as [s1 [l [E1 [HA1 F1]]]].
+    rewrite E1.
+    destruct (open_all_ref f (listing f) s1 HA1 Hw (fun i H => H)) as [s2 [l2 [E2 [HA2 F2]]]].
+    rewrite E2. exact HA2.
+  Qed.
+
+  Lemma pre_spec_without : forall f p r, pre_spec (without_cache f) p r <-> pre_spec f p r.
+  Proof.
+    intros f p r. unfold pre_spec. assert (HL : listing (without_cache f) = listing f) by apply listing_without_cache.
+    rewrite HL. destruct (filter (str_prefix p) (listing f)) as [|m [|m' q]]; try tauto.
+    split; intros [v [w [H1 [H2 H3]]]]; exists v, w; rewrite wsv_without in *; auto.
+  Qed.
+
+  Lemma pre_spec_equiv : forall f p x y, pre_spec f p x -> pre_spec f p y -> pre_equiv x y.
+  Proof.
+    intros f p x y Hx Hy. unfold pre_spec in *. destruct (filter (str_prefix p) (listing f)) as [|m [|m' q]].
+    - subst. reflexivity.
+    - destruct Hx as [v [w [-> [Hw Hn]]]]. destruct Hy as [v' [w' [-> [Hw' Hn']]]]. simpl. split; auto.
+      rewrite Hw in Hw'. inversion Hw'; subst. congruence.
+    - subst. reflexivity.
+  Qed.
+
+  Lemma Inv_fresh_without : forall f, Inv (without_cache f) fresh.
+  Proof. intro f. split; [apply sound_nil|]. intros c Hc. rewrite cache_file_without in Hc. discriminate. Qed.
+
+  (* open_job(id=p).statepoint() for abbreviated ids p, made after the other observations through ANY session
+     with sound caches on the file system WITH the cache file, equals what a fresh session WITHOUT it gives:
+     same exception class (KeyError / LookupError), or same resolved id and the same state point *)
+  Theorem prefix_transparent : forall f s ev ps,
+    Inv f s -> ws_intact f -> coll_free f (map snd (s_cache s) ++ file_vals f) ->
+    (forall p, In p ps -> (length p < 32)%nat) ->
+    Forall2 (fun x y => fst x = fst y /\ pre_equiv (snd x) (snd y))
+      (snd (open_pres f (fst (observe f s ev)) ps))
+      (snd (open_pres (without_cache f) (fst (observe (without_cache f) fresh ev)) ps)).
+  Proof.
+    intros f s ev ps HI Hw Hc Hps.
+    pose proof (Inv_Agr f s HI Hw Hc) as HA.
+    assert (HI1 : Inv f (fst (observe f s ev))) by (split; [apply observe_sound; exact HI|exact (proj2 HI)]).
+    pose proof (observe_Agr f s ev HA Hw) as HA1.
+    pose proof (Inv_fresh_without f) as HI0. pose proof (Agr_fresh_without f) as HA0.
+    pose proof (ws_intact_without f Hw) as Hw0.
+    assert (HI2 : Inv (without_cache f) (fst (observe (without_cache f) fresh ev)))
+      by (split; [apply observe_sound; exact HI0|exact (proj2 HI0)]).
+    pose proof (observe_Agr (without_cache f) fresh ev HA0 Hw0) as HA2.
+    destruct (open_pres_ref f ps _ HI1 HA1 Hw Hps) as [s1 [l1 [E1 [_ F1]]]].
+    destruct (open_pres_ref (without_cache f) ps _ HI2 HA2 Hw0 Hps) as [s2 [l2 [E2 [_ F2]]]].
+    rewrite E1, E2. simpl. eapply Forall2_common; [|exact F1|exact F2].
+    intros x y p [Hx Sx] [Hy Sy]. split; [congruence|].
+    apply (proj1 (pre_spec_without f p (snd y))) in Sy. eapply pre_spec_equiv; eauto.
+  Qed.
+
 End P.
 
 (* ================================================================ D. the code as it is (after fix: d7351f9) *)
@@ -894,9 +1068,10 @@ Section HOLDS.
       split; [apply sound_nil|exact (proj2 H1)].
     - inversion E; subst. eapply inv_restart; eauto.
     - destruct (unlink f CACHEP) as [f1|e] eqn:E1; inversion E; subst; auto. eapply inv_delcache; eauto.
-    - pose proof (observe_sound fr ls lb f s (ev8 c) H) as H1.
-      destruct (observe fr ls lb f s (ev8 c)) as [s1 ob] eqn:E1. simpl in H1. inversion E; subst.
-      split; [exact H1|exact (proj2 H)].
+    - unfold xobserve in E. pose proof (observe_sound fr ls lb f s (ev8 c) H) as H1.
+      destruct (observe fr ls lb f s (ev8 c)) as [s1 ob] eqn:E1. simpl in H1.
+      destruct (open_pres fr lb f s1 (c8_pres c)) as [s2 pre] eqn:E2. inversion E; subst.
+      split; [|exact (proj2 H)]. eapply open_pres_sound; [|exact E2]. split; [exact H1|exact (proj2 H)].
     - inversion E; subst. clear E.
       destruct (isdir f (jdir (cid8 c a)) && negb (exists_ f (jdir (cid8 c b)))); auto.
       destruct (rename f (jdir (cid8 c a)) (jdir (cid8 c b))) as [f1|e] eqn:E1; auto.
